@@ -139,6 +139,15 @@ fn minmax_ok(got: f64, want: f64, zl: &[f64], is_min: bool) -> bool {
     got == want || zl.iter().any(|z| *z == got && if is_min { *z < want } else { *z > want })
 }
 
+/// an older result of the same shape: `n` well-formed rows that no generated region produces
+fn stale_rows(n: usize) -> String {
+    let mut t = String::new();
+    for k in 0..n {
+        t.push_str(&format!("zzStale{}\t10\t5\t2.500\t0.250\t0.500\t0.100\t0.900\n", k));
+    }
+    t
+}
+
 impl Prop for C17 {
     type Case = Case;
     const ID: &'static str = "C17";
@@ -146,7 +155,7 @@ impl Prop for C17 {
         "a C01 bigWig and a generated BED region list (1..200 rows; regions inside one value, straddling values and gaps, between values, beyond all data, zero length; 3..8 columns) on chromosomes present in the file; \
          LIBRARY: stats_for_bed_item and bigwig_average_over_bed against the model (size, covered bases, sum, mean0 = sum/size, mean = sum/bases, min, max; NaN mean/min/max when nothing is covered; for zero-length regions size, bases, sum, and NaN mean / min / max); \
          TOOL: bigwigaverageoverbed with name mode {default column 4, column n, interval, none}, --min-max, -t in 1..16: one row per input row in input order, expected name column, numeric fields within the printed 3 decimals, byte-identical output for every -t; \
-         bigwigvaluesoverbed: one row per region with `size` values, each covered base equal to the stored value (uncovered: 0 or NaN). \
+         bigwigvaluesoverbed: one row per region with `size` values, each covered base equal to the stored value (uncovered: 0 or NaN); half of the output paths already hold an older, longer result. \
          non-trivial = more regions than threads AND a region straddling >= 2 values and a gap; distinct = distinct case JSON"
             .into()
     }
@@ -365,6 +374,11 @@ impl Prop for C17 {
         for t in tlist {
             mark_progress();
             let outp = p(&format!("out_{}.bed", t));
+            // for half of the outputs (a pure function of the case) the path already holds an older, longer result
+            if (rows.len() + t as usize) % 2 == 1 {
+                obs.label("output-path-already-exists-and-is-longer");
+                std::fs::write(&outp, stale_rows(rows.len() + 40)).map_err(|e| e.to_string())?;
+            }
             let mut args: Vec<String> = vec![p("in.bw"), p("in.bed"), outp.clone(), "-t".into(), t.to_string()];
             match case.name {
                 NameMode::Default => {}
@@ -450,6 +464,10 @@ impl Prop for C17 {
         if rows.iter().map(|r| (r.e - r.s) as u64).sum::<u64>() <= 2_000_000 {
             mark_progress();
             let outp = p("vals.txt");
+            let stale_vals = rows.len() % 2 == 0;
+            if stale_vals {
+                std::fs::write(&outp, stale_rows(rows.len() + 40)).map_err(|e| e.to_string())?;
+            }
             let o = Command::new(&vals)
                 .args([p("in.bw"), p("in.bed"), outp.clone()])
                 .env("RUST_BACKTRACE", "0")
@@ -462,6 +480,9 @@ impl Prop for C17 {
             let lines: Vec<&str> = text.split('\n').collect();
             if lines.len() < rows.len() {
                 return Err(format!("bigwigvaluesoverbed wrote {} rows for {} regions", lines.len(), rows.len()));
+            }
+            if stale_vals && lines[rows.len()..].iter().any(|l| l.contains("zzStale")) {
+                return Err(format!("bigwigvaluesoverbed left {} lines of an older result behind its {} rows", lines.len() - rows.len(), rows.len()));
             }
             for (r, l) in rows.iter().zip(lines.iter()) {
                 let want = input.chroms[r.ci].per_base(r.s, r.e);
